@@ -216,3 +216,7 @@ mod tests {
         }
     }
 }
+
+#[cfg(kani)]
+#[path = "/verif/harness/may/sync_wait_group.rs"]
+mod verif_kani;
